@@ -3,12 +3,15 @@ package main
 import (
 	"context"
 	"fmt"
+	"io"
 	"os"
 	"sort"
 	"strings"
 	"time"
 
 	"github.com/hedzr/logg/slog"
+
+	"verif/shim/vsync"
 )
 
 // ---------------------------------------------------------------- recording writers
@@ -51,6 +54,48 @@ type plainW struct {
 func (w *plainW) Write(p []byte) (int, error) {
 	w.rec.events = append(w.rec.events, writeEvent{w.name, string(p)})
 	return len(p), nil
+}
+
+// reentV is a value whose String method logs other records (on side loggers
+// that write to io.Discard) while the record it belongs to is being formatted:
+// a re-entrant use of the library from one goroutine. The statement of no
+// property excludes it; the text it returns is all that may be seen of it.
+type reentV struct{ s string }
+
+func (r reentV) String() string { reentLog(); return r.s }
+
+// reentFormats: formats of the side records written by reentLog.
+var reentFormats = []string{"json", "logfmt", "color"}
+
+// reentNoPoolChoice: the side records take the most recently returned pooled
+// object instead of opening an environment choice (keeps C09's DFS small).
+var reentNoPoolChoice bool
+
+func reentLog() {
+	if reentNoPoolChoice && !vsync.NoPoolChoice {
+		vsync.NoPoolChoice = true
+		defer func() { vsync.NoPoolChoice = false }()
+	}
+	for i, f := range reentFormats {
+		l := slog.New("side" + f).SetWriter(io.Discard).SetErrorWriter(io.Discard).SetLevel(slog.AlwaysLevel)
+		switch f {
+		case "json":
+			l.SetJSONMode(true)
+		case "logfmt":
+			l.SetColorMode(false)
+		default:
+			l.SetColorMode(true)
+		}
+		l.Warn("side record\nsecond line", "sk", i, slog.Group("omega", "a", 1, slog.Group("zzner", "b", 2, "c", "x y")), "tail", strings.Repeat("x", 40))
+	}
+}
+
+// reentW is a recording writer that logs a side record before it looks at its bytes.
+type reentW struct{ plainW }
+
+func (w *reentW) Write(p []byte) (int, error) {
+	reentLog()
+	return w.plainW.Write(p)
 }
 
 // closerW implements slog.LogWriter (Write + Close).
